@@ -78,6 +78,18 @@ class Fx:
         pk = tuple((n, L.read_value(L.packet_get(self.pk, n)[1])) for n in sorted(names)) if rc == CIF_OK else ('packet_names', rc)
         return (D.dump(L, self.cif), vals, pk)
 
+    def owned_valid(self, snap):
+        """are the caller-owned objects of a snapshot well-formed values (whatever their content)"""
+        def ok(pv):
+            if pv[0] in ('BADKIND',):
+                return False
+            if pv[0] == 'list':
+                return all(ok(e) for e in pv[1])
+            if pv[0] == 'table':
+                return all(e[0] != 'MISSING' and ok(e) for _, e in pv[1])
+            return True
+        return all(ok(v) for v in snap[1]) and isinstance(snap[2], tuple) and all(ok(v) for _, v in snap[2] if isinstance(v, tuple)) and (not snap[2] or snap[2][0] != 'packet_names')
+
     def close(self):
         L = self.L
         for v in (self.v_char, self.v_numb, self.v_numtext, self.v_list, self.v_table, self.v_unk):
@@ -155,7 +167,6 @@ def _(L, fx):
 
 
 handle_op('cif_create_block', 'cif_create_block', lambda L, fx: (fx.cif, U('NewBlock')), lambda L, h: L.container_free(h), observe=code_of)
-handle_op('cif_create_block:no-handle', 'cif_create_block', lambda L, fx: (fx.cif, U('nb2')), lambda L, h: None)
 handle_op('cif_get_block', 'cif_get_block', lambda L, fx: (fx.cif, U('B1')), lambda L, h: L.container_free(h), observe=code_of)
 handle_op('cif_container_create_frame', 'cif_container_create_frame', lambda L, fx: (fx.b1, U('Frame2')), lambda L, h: L.container_free(h), observe=code_of)
 handle_op('cif_container_get_frame', 'cif_container_get_frame', lambda L, fx: (fx.b1, U('F1')), lambda L, h: L.container_free(h), observe=code_of)
@@ -223,6 +234,8 @@ def rc_op(name, fname, getargs, retry=True):
         return None
 
 
+rc_op('cif_create_block:no-handle', 'cif_create_block', lambda L, fx: (fx.cif, U('nb2'), None))
+rc_op('cif_container_create_frame:no-handle', 'cif_container_create_frame', lambda L, fx: (fx.b2, U('nf2'), None))
 rc_op('cif_container_assert_block', 'cif_container_assert_block', lambda L, fx: (fx.b1,))
 rc_op('cif_container_prune', 'cif_container_prune', lambda L, fx: (fx.b1,))
 rc_op('cif_container_set_value:new', 'cif_container_set_value', lambda L, fx: (fx.b1, U('_brand_new'), fx.v_table))
@@ -475,9 +488,14 @@ def _(L, fx):
 
 @op('cif_walk')
 def _(L, fx):
-    rec = walker.Recorder(L, None, query=False)
-    rc = yield (lambda: L.call('cif_walk', fx.cif, C.byref(rec.handler), None))
-    return len(rec.events) if rc == CIF_OK else None
+    box = []
+
+    def go():
+        rec = walker.Recorder(L, None, query=False)
+        box.append(rec)
+        return L.call('cif_walk', fx.cif, C.byref(rec.handler), None)
+    rc = yield go
+    return len(box[-1].events) if rc == CIF_OK and box else None
 
 
 # ---- packet iterators: the scenario around the faulted step is completed (or aborted) without faults ---------------
@@ -640,6 +658,7 @@ class Scenario:
     def __init__(self, L, opfn):
         self.L = L
         self.fx = Fx(L)
+        self.before = self.fx.snapshot()       # taken before the op's preparation, which may open an iterator
         self.gen = opfn(L, self.fx)
         self.target = next(self.gen)
 
@@ -669,7 +688,7 @@ def twin(L, opfn, layer, skip=False):
     """unfaulted run: (allocations in the layer, rc, outputs, final snapshot, snapshot before the call)"""
     sc = Scenario(L, opfn)
     try:
-        before = sc.fx.snapshot()
+        before = sc.before
         if skip:
             out = sc.finish(None)
             return 0, None, out, sc.fx.snapshot(), before
@@ -691,25 +710,30 @@ def ks_for(n, quick):
     return [k for k in ks if k <= n]
 
 
-def run_op(ctx, name, opfn, retryable, layer):
+def run_op(ctx, case_index, name, opfn, retryable, layer):
     L = ctx.L
     quick = ctx.tier == 'quick'
     info = dict(op=name, layer=layer)
     iterator_op = name.startswith('cif_pktitr_')
     n, rc_n, out_n, S_n, S_0 = twin(L, opfn, layer)
     _, _, out_skip, S_skip, _ = twin(L, opfn, layer, skip=True)
-    ctx.count('ops')
+    if not (ctx.resume and ctx.resume.get('index') == case_index):
+        ctx.count('ops')
+        ctx.count('allocation_sites_reached:%s' % layer, n)
     ctx.add('ops_run', name)
     if rc_n not in (CIF_OK,):
         ctx.inconclusive('%s: the unfaulted call returns %r' % (name, rc_n))
         return
-    ctx.count('allocation_sites_reached:%s' % layer, n)
+    resume_at = ctx.resume['at'] if ctx.resume and ctx.resume.get('index') == case_index else 0
     for k in ks_for(n, quick):
+        if k <= resume_at:
+            continue
         kinfo = dict(info, k=k, of=n)
+        ctx.begin(case_index, dict(op=name, layer=layer, k=k, resume=k))
         scope = LedgerScope(L).__enter__()
         sc = Scenario(L, opfn)
         try:
-            if sc.fx.snapshot() != S_0:
+            if sc.before != S_0:
                 raise HarnessError('fixture is not deterministic')
             arm(L, layer, k)
             rc_f = sc.target()
@@ -722,19 +746,40 @@ def run_op(ctx, name, opfn, retryable, layer):
             ctx.count('faults_delivered')
             ctx.add('results_under_fault', '%s' % (rc_f,))
             failed = rc_f in FAILS or rc_f == NULLPTR
+            # iterator steps run inside the iterator's transaction; close and abort end it
+            tx_expected = iterator_op and name not in ('cif_pktitr_close', 'cif_pktitr_abort')
+            if not tx_expected and L.in_transaction(sc.fx.cif):
+                ctx.violation('fault:%s:%s:transaction-left-open' % (layer, name), '%s with allocation %d of %d (%s layer) failing returned %s and left a transaction open: every later call that starts one fails' % (name, k, n, layer, rc_f), kinfo)
+                sc.finish(rc_f)
+                continue
             if not failed and rc_f != rc_n:
                 ctx.violation('fault:%s:%s:rc:%s' % (layer, name, rc_f), '%s with allocation %d of %d (%s layer) failing returned %s' % (name, k, n, layer, rc_f), kinfo)
                 sc.finish(rc_f)
                 continue
+            owned_changed = False
             if failed and not iterator_op and name not in ('cif_parse:existing',):
                 mid = sc.fx.snapshot()
-                if mid != S_0:
-                    ctx.violation('fault:%s:%s:state-changed' % (layer, name), '%s failed with %s (allocation %d of %d) but changed state: %s' % (name, rc_f, k, n, D.first_difference(mid, S_0)), kinfo)
+                if mid[0] != S_0[0]:
+                    ctx.violation('fault:%s:%s:cif-changed' % (layer, name), '%s failed with %s (allocation %d of %d) but changed the managed CIF: %s' % (name, rc_f, k, n, D.first_difference(mid[0], S_0[0])), kinfo)
                     sc.finish(rc_f)
                     continue
+                if not sc.fx.owned_valid(mid):
+                    ctx.violation('fault:%s:%s:owned-object-invalid' % (layer, name), '%s failed with %s (allocation %d of %d) and left a caller-owned object malformed: %r' % (name, rc_f, k, n, str(mid[1:])[:300]), kinfo)
+                    sc.finish(rc_f)
+                    continue
+                # a failed call may alter (not invalidate) an object the caller owns; the twins then no longer predict
+                # the content of those objects
+                owned_changed = mid[1:] != S_0[1:]
+                if owned_changed:
+                    ctx.count('failed_calls_that_altered_a_caller_owned_object')
             rc_final = rc_f
             if failed and retryable:
                 rc_r = sc.target()
+                if rc_r != rc_n and iterator_op and layer == 'sqlite':
+                    # the storage engine ends the iterator's transaction when a statement runs out of memory inside it
+                    ctx.violation('fault:sqlite:%s:iterator-not-resumable' % name, 'after failing with %s (SQLite allocation %d of %d) the repeated %s returned %s: the iterator cannot be used any more' % (rc_f, k, n, name, rc_r), kinfo)
+                    sc.finish(rc_r)
+                    continue
                 if rc_r != rc_n:
                     ctx.violation('fault:%s:%s:retry:rc:%s' % (layer, name, rc_r), 'after failing with %s (allocation %d of %d) the repeated %s returned %s' % (rc_f, k, n, name, rc_r), kinfo)
                     sc.finish(rc_r)
@@ -749,6 +794,15 @@ def run_op(ctx, name, opfn, retryable, layer):
                 want_S, want_out, what = S_skip, out_skip, 'the call-skipped'
             if name == 'cif_parse:existing' and rc_final != rc_n:
                 pass        # the documentation allows partial content; consistency was checked by the dump
+            elif owned_changed or iterator_op:
+                # iterator steps: a failed step may have consumed a row or touched the caller's packet; only the
+                # managed CIF and the well-formedness of the caller's objects are judged
+                if iterator_op and not sc.fx.owned_valid(S_f):
+                    ctx.violation('fault:%s:%s:owned-object-invalid' % (layer, name), '%s (allocation %d of %d failing, result %s) left a caller-owned object malformed' % (name, k, n, rc_f), kinfo)
+                    continue
+                if S_f[0] != want_S[0]:
+                    ctx.violation('fault:%s:%s:final-state' % (layer, name), '%s (allocation %d of %d failing, result %s, final result %s): the managed CIF differs from %s twin: %s' % (name, k, n, rc_f, rc_final, what, D.first_difference(S_f[0], want_S[0])), kinfo)
+                    continue
             elif S_f != want_S:
                 ctx.violation('fault:%s:%s:final-state' % (layer, name), '%s (allocation %d of %d failing, result %s, final result %s): final state differs from %s twin: %s' % (name, k, n, rc_f, rc_final, what, D.first_difference(S_f, want_S)), kinfo)
                 continue
@@ -775,11 +829,11 @@ def worker(ctx):
     for i in ctx.cases(len(cases)):
         name, fn, retry, layer = cases[i]
         ctx.begin(i, dict(op=name, layer=layer))
-        run_op(ctx, name, fn, retry, layer)
+        run_op(ctx, i, name, fn, retry, layer)
 
 
 def run(env):
-    res = env.run_pool(MODULE, dict(), nshards=16, case_timeout=900, total_timeout=3000 if env.quick else 40000)
+    res = env.run_pool(MODULE, dict(), nshards=16, case_timeout=300, total_timeout=3000 if env.quick else 40000, resume_in_case=True, max_restarts=3000)
     inconclusive = list(res.inconclusive)
     nops = len(OPS) * 2
     if res.count('ops') < nops and not res.violations:
